@@ -26,6 +26,7 @@ import XotModel.Lemmas.Fcreation
 import XotModel.Lemmas.FinvTrav
 import XotModel.Lemmas.ArenaExamples
 import XotModel.Lemmas.ArenaSim
+import XotModel.Lemmas.ArenaRemoveRoot
 
 namespace XotModel.Props
 open XotModel
@@ -789,11 +790,12 @@ example :
   `checked_insert_before`, `remove`, `remove_subtree`) with live arguments — the sibling insertions
   next to a node that has a parent and is not below the inserted node, `remove` of a node with a
   parent or without children: exactly the calls the forest model does not send to its `corrupt`
-  sink (except `remove` of a parentless node with exactly one child, which is fine but not proved).
+  sink (except `remove` of a parentless node with exactly one child, which is fine:
+  `C04_arena_refines_remove_root_one` below, outside `Arena.Call`).
   `Arena.Abs a g w rs f`: the state `f` of the forest model (`Model/Forest.lean`: `HTree`s with
   creation-order handles) is the arena read through `g`, the handle numbering and values `w`
   (injective on live slots, below `f.next`) and the parentless live slots `rs` in the forest's root
-  order.  (`traverse` / `descendants`: `Props/C07`; not covered anywhere: `reverse_traverse`.)
+  order.  (`traverse` / `descendants` / `reverse_traverse`: `Props/C07`.)
   ===================================================================================== -/
 
 /-- Every arena reached from the empty one by such calls satisfies the pointer invariant. -/
@@ -923,6 +925,25 @@ theorem C04_arena_refines_remove (a : Arena) (g : Arena.Shape) (r : Arena.Rep a 
         obtain ⟨_, a', _, _, h, _, r'⟩ := r.remove_inner i p L R c1 ck hi hp hkp hh hl
         exact ⟨a', h, r'⟩
 
+/-- Refinement, `remove` of a PARENTLESS node `i` with exactly one child `c` (the case the forest model
+    sends to its `corrupt` sink, and the only parentless-with-children case in which indextree stays
+    inside the invariant): no panic; the child becomes a parentless node (its sibling pointers were
+    and stay empty), `i` loses its child, is freed and joins the end of the free list; the resulting
+    arena is well-formed and stores `g.removeRootOne i c`; nothing else changes at list level.  (With
+    two or more children the invariant is lost: closed example below.) -/
+theorem C04_arena_refines_remove_root_one (a : Arena) (g : Arena.Shape) (r : Arena.Rep a g) (i c : Nat)
+    (hi : Arena.Live a i) (hpar : g.par i = none) (hk : g.kids i = [c]) :
+    ∃ a', Arena.remove a (a.idAt i) = .done a' () ∧ Arena.Rep a' (g.removeRootOne i c) ∧
+      (g.removeRootOne i c).par c = none ∧ (g.removeRootOne i c).kids i = [] ∧
+      (∀ j, j ≠ c → (g.removeRootOne i c).par j = g.par j) ∧
+      (∀ q, q ≠ i → (g.removeRootOne i c).kids q = g.kids q) ∧
+      (g.removeRootOne i c).free = g.free ++ [i] ∧
+      (∀ j, Arena.Live a' j ↔ (Arena.Live a j ∧ j ≠ i)) := by
+  obtain ⟨a2, a', hM, _, h, hok, r'⟩ := r.remove_root_one i c hi hpar hk
+  refine ⟨a', h, r', by simp [Arena.Shape.removeRootOne], by simp [Arena.Shape.removeRootOne],
+    fun j hj => by simp [Arena.Shape.removeRootOne, hj], fun q hq => by simp [Arena.Shape.removeRootOne, hq], rfl,
+    fun j => (hok.live j).trans (and_congr_left fun _ => hM.live j)⟩
+
 /-- Refinement, `remove_subtree`: never panics, both loops end; the node is detached and exactly its
     descendants-or-self `l` are freed, in the order `l` (document order), which is the order in which
     `new_node` will reuse the slots. -/
@@ -993,6 +1014,21 @@ example : Arena.sampleA.wf = true ∧ Arena.sampleC.wf = true ∧
     (match Arena.removeSubtree Arena.sampleB ⟨2, 0⟩ with
      | .done a' () => a'.wf && a'.firstFree == some 1 && a'.lastFree == some 3 &&
          Arena.isRemoved a' ⟨4, 0⟩ == .done a' true && Arena.children a' ⟨1, 0⟩ 9 == .done a' [⟨3, 0⟩]
+     | _ => false) = true := by decide
+
+/-- Non-vacuity of `C04_arena_refines_remove_root_one`: `sampleD` (`1:0 [2:0]`) is reachable, hence
+    well-formed, and every shape it stores has slot 0 parentless with the only child 1; after
+    `remove(1:0)` the arena is well-formed, `2:0` is a parentless node without siblings and with its
+    payload, `1:0` is removed and slot 0 is the free list. -/
+example : ∃ g, Arena.Rep Arena.sampleD g ∧ Arena.Live Arena.sampleD 0 ∧ g.par 0 = none ∧ g.kids 0 = [1] := by
+  obtain ⟨g, r⟩ := C04_arena_wf_reachable _ Arena.sampleD_steps
+  have h := r.root_one_of_ptrs (i := 0) (x := ⟨2, 0⟩) (s := { first := some ⟨2, 0⟩, last := some ⟨2, 0⟩, data := .data 10 })
+    (by decide) (by decide) rfl rfl rfl
+  exact ⟨g, r, ⟨_, rfl, by decide⟩, h.1, h.2⟩
+
+example : (match Arena.remove Arena.sampleD ⟨1, 0⟩ with
+     | .done a' () => a'.wf && a'.get ⟨2, 0⟩ == some { data := .data 20 } &&
+         Arena.isRemoved a' ⟨1, 0⟩ == .done a' true && a'.firstFree == some 0 && a'.lastFree == some 0
      | _ => false) = true := by decide
 
 example : (Arena.sampleA.after (Arena.remove · ⟨1, 0⟩)).wf = false ∧
